@@ -283,6 +283,39 @@ func runC09(rng *rand.Rand, scale int, out string, shards int, seed int64, corpu
 		}
 		do(storylineRuneCase(rng))
 	}
+	// 5f. the real standard-input path: the configuration is `-`, or a file
+	// says `include -`, with content on stdin; valid texts and one planted
+	// fault each.  The Coq model takes stdin as empty, so these cases go to the
+	// position / no-crash oracle only (stdin_cases).
+	var stdins []parseRec
+	for i := 0; i < 260*scale; i++ {
+		if hung {
+			break
+		}
+		cl := genConfig(rng)
+		in, pl, files := stdinCase(rng, cl, i%2 == 1)
+		in.Stream = "stdin"
+		o := observe(in)
+		if o.Kind == "skipped" {
+			break
+		}
+		if i%3 != 0 && o.Kind == "accepted" {
+			kind := in.Fault
+			if !injectFault(rng, in, cl, pl, files) || in.Fault == "include-directory" {
+				continue
+			}
+			in.fixStdin()
+			in.Fault = kind + "+" + in.Fault
+			in.Stream = "stdin-fault"
+			o = observe(in)
+			if o.Kind == "skipped" {
+				break
+			}
+		}
+		sum.note(in, o)
+		sum.Faults[in.Stream+":"+in.Fault]++
+		stdins = append(stdins, parseRec{in, o})
+	}
 	// 5b. cast multiplicities (bounded above), written out and through parameters
 	mults := []string{"-9223372036854775808", "-2147483649", "-4", "-1", "0", "1", "2", "7", "40", "+2", "007", "-0", "1.5", "two", "", "~undefinedn~", "0x10", "1e2", "99999999999999999999", "-"}
 	for i := 0; i < 140*scale; i++ {
@@ -462,8 +495,8 @@ func runC09(rng *rand.Rand, scale int, out string, shards int, seed int64, corpu
 	}
 
 	// ---- emit
-	sum.Counts["parse"], sum.Counts["read"], sum.Counts["edit"], sum.Counts["shorthand"] = len(parse), len(reads), len(edits), len(shorts)
-	sum.Evaluations = len(parse) + len(reads) + len(edits) + len(shorts)
+	sum.Counts["parse"], sum.Counts["read"], sum.Counts["edit"], sum.Counts["shorthand"], sum.Counts["stdin"] = len(parse), len(reads), len(edits), len(shorts), len(stdins)
+	sum.Evaluations = len(parse) + len(reads) + len(edits) + len(shorts) + len(stdins)
 	sum.DistinctNontrivial = distinct(parse)
 	sum.Shards = shards
 	for k := 0; k < shards; k++ {
@@ -489,6 +522,13 @@ func runC09(rng *rand.Rand, scale int, out string, shards int, seed int64, corpu
 			items = append(items, fmt.Sprintf("(%s, %d%%N)", bstr(r.Line), r.Obs))
 		}
 		sb.WriteString("Definition edit_cases : list (list byte * N) := " + vh.ListNL(items) + ".\n")
+		lo, hi = shardRange(len(stdins), shards, k)
+		sum.Offsets["stdin"] = append(sum.Offsets["stdin"], lo)
+		items = nil
+		for _, r := range stdins[lo:hi] {
+			items = append(items, coqParseCase(r.In, r.Obs))
+		}
+		sb.WriteString("Definition stdin_cases : list parse_case := " + vh.ListNL(items) + ".\n")
 		lo, hi = shardRange(len(shorts), shards, k)
 		sum.Offsets["shorthand"] = append(sum.Offsets["shorthand"], lo)
 		items = nil
@@ -501,7 +541,7 @@ func runC09(rng *rand.Rand, scale int, out string, shards int, seed int64, corpu
 	for i := 0; i < len(parse) && len(sum.Samples) < 14; i += 1 + len(parse)/14 {
 		sum.Samples = append(sum.Samples, sample(parse[i].In, parse[i].Obs))
 	}
-	vh.WriteJSON(out, "cases.json", map[string]interface{}{"parse": parse, "read": reads, "edit": edits, "shorthand": shorts, "seed": seed})
+	vh.WriteJSON(out, "cases.json", map[string]interface{}{"parse": parse, "read": reads, "edit": edits, "shorthand": shorts, "stdin": stdins, "seed": seed})
 	vh.WriteJSON(out, "summary.json", sum)
 	_ = os.Stdout
 }
